@@ -86,7 +86,7 @@ def _body(fn) -> List[ast.stmt]:
 
 def _inlinable(fn) -> bool:
     a = fn.args
-    if a.vararg or a.kwarg:
+    if a.kwarg:
         return False
     for d in fn.decorator_list:
         if not (isinstance(d, ast.Name) and d.id == "staticmethod"):
@@ -161,6 +161,8 @@ def _simple(e: ast.AST) -> bool:
         return _simple(e.value)
     if isinstance(e, ast.UnaryOp) and isinstance(e.operand, ast.Constant):
         return True
+    if isinstance(e, ast.Tuple):
+        return all(_simple(x) for x in e.elts)
     return False
 
 
@@ -259,9 +261,12 @@ class Helper:
         args = list(call.args)
         if receiver is not None:
             args = [receiver] + args
+        out: Dict[str, ast.AST] = {}
+        if self.fn.args.vararg is not None:
+            out[self.fn.args.vararg.arg] = ast.Tuple(elts=list(args[len(pos):]), ctx=ast.Load())      # *rest receives the surplus
+            args = args[:len(pos)]
         if len(args) > len(pos):
             raise _Fail
-        out: Dict[str, ast.AST] = {}
         for p, a in zip(pos, args):
             out[p.arg] = a
         for k in call.keywords:
@@ -273,7 +278,7 @@ class Helper:
                 if d is None:
                     raise _Fail
                 out[p.arg] = d
-        if set(out) != {p.arg for p in pos + kwonly}:
+        if set(out) != {p.arg for p in pos + kwonly} | ({self.fn.args.vararg.arg} if self.fn.args.vararg is not None else set()):
             raise _Fail
         return out
 
@@ -285,9 +290,22 @@ class Inliner:
         self.helpers = helpers                  # callable by bare name
         self.methods = methods                  # callable as self.<name> / Class.<name>
         self.cls = cls
-        self.own_names = _all_names(owner)      # names of the caller before any inlining
+        # names of the caller before any inlining (the text of its nested helpers does not count)
+        nested = [h.fn for h in helpers.values() if h.kind == "nested"]
+        self.own_names = set()
+        todo = [owner]
+        while todo:
+            n = todo.pop()
+            if any(n is f for f in nested):
+                continue
+            if isinstance(n, ast.Name):
+                self.own_names.add(n.id)
+            elif isinstance(n, ast.arg):
+                self.own_names.add(n.arg)
+            todo.extend(ast.iter_child_nodes(n))
         self.counter = 0
         self.temps: Set[str] = set()
+        self.introduced: Set[str] = set()
         self.done = 0
 
     # -- call resolution
@@ -445,20 +463,14 @@ class Inliner:
         repl: Dict[str, ast.AST] = {}
         ren: Dict[str, str] = {}
         # locals of the helper keep their names unless the caller uses the name for something else
-        caller_other = set(self.own_names)
-        if h.kind == "nested":
-            # the names of a nested helper are part of the caller's text; only names that occur outside the helper collide
-            caller_other = set()
-            for x in _walk_excluding(self.owner, fn):
-                if isinstance(x, ast.Name):
-                    caller_other.add(x.id)
-                elif isinstance(x, ast.arg):
-                    caller_other.add(x.arg)
+        # (nor another inlined copy of a helper: every copy gets its own locals, so that each stays singly assigned)
+        caller_other = set(self.own_names) | self.introduced
         for name in sorted(assigned):
             if name in b:
                 continue
             if name in caller_other:
                 ren[name] = self._fresh(f"{name}_{fn.name.strip('_')}", caller_other | assigned)
+            self.introduced.add(ren.get(name, name))
         for p, arg in b.items():
             if _simple(arg) and p not in assigned:
                 repl[p] = arg
@@ -466,6 +478,7 @@ class Inliner:
                 tgt = p if p not in caller_other else self._fresh(f"{p}_{fn.name.strip('_')}", caller_other | assigned)
                 if tgt != p:
                     ren[p] = tgt
+                self.introduced.add(tgt)
                 if not (isinstance(arg, ast.Name) and arg.id == tgt):
                     pre.append(ast.copy_location(ast.Assign(targets=[ast.Name(id=tgt, ctx=ast.Store())], value=copy.deepcopy(arg)), call))
         body = [copy.deepcopy(s) for s in _body(fn)]
